@@ -1,7 +1,7 @@
 SPECIFICATION TSpec
 CONSTANTS
   Procs = {"p1", "p2", "p3"}
-  NCalls = 2
+  NCalls = 1
   FIXED = TRUE
   GRAPH = "excl"
   Refs <- MCRefs
